@@ -1,7 +1,635 @@
 package main
 
-import "github.com/imroc/req/v3/verifharness/hk"
+// C16 (b): end-to-end. Generated header sets / order lists go through the real client
+// (request-level, client-level and impersonation-preset configuration) to frame-level origins
+// (harness/origin) that record the field list in wire order.
 
-var syncers map[string]hk.Gosyncer
+import (
+	"fmt"
+	"net/http"
+	"sort"
+	"strings"
+	"time"
 
-func runE2E(r *hk.Run, rng *hk.Rand) {}
+	req "github.com/imroc/req/v3"
+	"github.com/imroc/req/v3/verifharness/hk"
+	"github.com/imroc/req/v3/verifharness/origin"
+)
+
+type hdrOp struct {
+	Kind string `json:"kind"` // set (canonicalising, replaces) | nc (non-canonical, appends)
+	K    string `json:"k"`
+	V    string `json:"v"`
+}
+
+type cookieJ struct{ N, V string }
+
+type scenario struct {
+	Proto      int       `json:"proto"`
+	Method     string    `json:"method"`
+	Req        []hdrOp   `json:"req"`
+	Cli        []hdrOp   `json:"cli"`
+	ReqOrder   []string  `json:"req_order,omitempty"`
+	CliOrder   []string  `json:"cli_order,omitempty"`
+	ReqPOrder  []string  `json:"req_porder,omitempty"`
+	CliPOrder  []string  `json:"cli_porder,omitempty"`
+	Preset     string    `json:"preset,omitempty"`
+	BodyLen    int       `json:"body_len"`
+	ReqCookies []cookieJ `json:"req_cookies,omitempty"`
+	CliCookies []cookieJ `json:"cli_cookies,omitempty"`
+	NoCompress bool      `json:"no_compress"`
+}
+
+var valueWords = []string{"1", "no-cache", "text/html,application/xhtml+xml;q=0.9,*/*;q=0.8", "en-US,en;q=0.5", "a b  c",
+	"\"quoted\", \"list\"", "?0", "W/\"etag-1\"", "x", "ümlaut", "tab\there", "semi;colon; pair=1", "=", "a=b; c=d", "0", "keep: colon"}
+
+func genValue(r *hk.Rand) string {
+	if r.Chance(8) {
+		return " " + hk.Pick(r, valueWords) + "  " // surrounding blanks: HTTP does not count them as part of the value
+	}
+	if r.Chance(4) {
+		return ""
+	}
+	if r.Chance(30) {
+		return fmt.Sprintf("v%d", r.Intn(100000))
+	}
+	return hk.Pick(r, valueWords)
+}
+
+var pseudoNames = []string{":authority", ":method", ":path", ":scheme"}
+
+func allPerms(xs []string) [][]string {
+	if len(xs) <= 1 {
+		return [][]string{append([]string(nil), xs...)}
+	}
+	var out [][]string
+	for i := range xs {
+		rest := append(append([]string(nil), xs[:i]...), xs[i+1:]...)
+		for _, p := range allPerms(rest) {
+			out = append(out, append([]string{xs[i]}, p...))
+		}
+	}
+	return out
+}
+
+var pseudoPerms = allPerms(pseudoNames)
+
+func genHeaderCount(r *hk.Rand) int {
+	switch r.Intn(10) {
+	case 0:
+		return r.Range(1, 4)
+	case 1, 2:
+		return r.Range(30, 60)
+	default:
+		return r.Range(8, 22)
+	}
+}
+
+func genScenario(r *hk.Rand, proto int, idx int) scenario {
+	sc := scenario{Proto: proto, Method: hk.Pick(r, []string{"GET", "GET", "POST", "PUT", "DELETE", "PATCH", "OPTIONS"})}
+	n := genHeaderCount(r)
+	names := genNames(r, n)
+	level := r.Intn(3) // 0 request-level, 1 client-level, 2 both
+	for _, nm := range names {
+		nv := 1
+		if r.Chance(20) {
+			nv = r.Range(2, 3)
+		}
+		toCli := level == 1 || (level == 2 && r.Bool())
+		for j := 0; j < nv; j++ {
+			op := hdrOp{Kind: "set", K: recase(r, nm), V: genValue(r)}
+			if nv > 1 || r.Chance(25) {
+				op.Kind = "nc" // only the non-canonical setters append
+				if r.Chance(50) {
+					op.K = http.CanonicalHeaderKey(nm) // canonical spelling, several values
+				} else if j > 0 && r.Chance(70) {
+					op.K = lastKey(sc, toCli) // same spelling again -> multi-valued
+				}
+			}
+			if toCli {
+				sc.Cli = append(sc.Cli, op)
+			} else {
+				sc.Req = append(sc.Req, op)
+			}
+		}
+		if level == 2 && r.Chance(15) { // the same name at the other level too (request wins on equal keys)
+			op := hdrOp{Kind: "set", K: nm, V: genValue(r)}
+			if toCli {
+				sc.Req = append(sc.Req, op)
+			} else {
+				sc.Cli = append(sc.Cli, op)
+			}
+		}
+	}
+	// fields the protocols treat specially
+	if r.Chance(25) {
+		ua := hdrOp{Kind: "set", K: "User-Agent", V: hk.Pick(r, []string{"verif-agent/1.0", "", "Mozilla/5.0 (X11)"})}
+		if r.Chance(30) && proto != 1 {
+			ua = hdrOp{Kind: "nc", K: "user-agent", V: "lower-agent/2"}
+		}
+		if r.Bool() {
+			sc.Req = append(sc.Req, ua)
+		} else {
+			sc.Cli = append(sc.Cli, ua)
+		}
+		names = append(names, "user-agent")
+	}
+	if r.Chance(15) {
+		sc.Req = append(sc.Req, hdrOp{Kind: "set", K: "Accept-Encoding", V: hk.Pick(r, []string{"identity", "gzip, br"})})
+		names = append(names, "accept-encoding")
+	}
+	if r.Chance(12) {
+		sc.Req = append(sc.Req, hdrOp{Kind: "set", K: hk.Pick(r, []string{"Connection", "Keep-Alive", "Proxy-Connection"}), V: "keep-alive"})
+	}
+	if r.Chance(10) {
+		sc.Req = append(sc.Req, hdrOp{Kind: "nc", K: "cookie", V: "raw=1; raw2=2"})
+		names = append(names, "cookie")
+	}
+	if r.Chance(35) {
+		for i := 0; i < r.Range(1, 3); i++ {
+			sc.ReqCookies = append(sc.ReqCookies, cookieJ{fmt.Sprintf("rc%d", i), fmt.Sprintf("val%d", r.Intn(1000))})
+		}
+		if r.Bool() {
+			sc.CliCookies = append(sc.CliCookies, cookieJ{"cc", fmt.Sprintf("val%d", r.Intn(1000))})
+		}
+		names = append(names, "cookie")
+	}
+	if sc.Method != "GET" && sc.Method != "OPTIONS" && r.Chance(60) {
+		sc.BodyLen = hk.Pick(r, []int{1, 10, 200, 5000})
+		names = append(names, "content-length", "content-type")
+	}
+	sc.NoCompress = r.Chance(20)
+	names = append(names, "host")
+	// order lists
+	switch k := r.Intn(10); {
+	case k < 4:
+		sc.ReqOrder, _ = genOrder(r, names)
+	case k < 7:
+		sc.CliOrder, _ = genOrder(r, names)
+	case k < 8:
+		sc.ReqOrder, _ = genOrder(r, names)
+		sc.CliOrder, _ = genOrder(r, names)
+	case k < 9:
+		sc.Preset = hk.Pick(r, []string{"chrome", "firefox", "safari"})
+	}
+	if proto != 1 {
+		p := append([]string(nil), pseudoPerms[idx%len(pseudoPerms)]...)
+		switch r.Intn(6) {
+		case 0:
+		case 1:
+			sc.CliPOrder = p
+		case 2:
+			sc.ReqPOrder = p[:r.Range(1, 4)]
+		case 3:
+			for i := range p {
+				p[i] = strings.ToUpper(p[i])
+			}
+			sc.ReqPOrder = p
+		default:
+			sc.ReqPOrder = p
+		}
+	}
+	return sc
+}
+
+func lastKey(sc scenario, cli bool) string {
+	l := sc.Req
+	if cli {
+		l = sc.Cli
+	}
+	return l[len(l)-1].K
+}
+
+func applyOps(h http.Header, ops []hdrOp) {
+	for _, op := range ops {
+		if op.Kind == "set" {
+			h.Set(op.K, op.V)
+		} else {
+			h[op.K] = append(h[op.K], op.V)
+		}
+	}
+}
+
+// ---------- the caller's view, computed from the API calls with stdlib http.Header ----------
+
+type expectation struct {
+	fields  []origin.Field // caller-set fields (exact spelling) that must reach the wire, UA/cookie excluded
+	ua      []string       // expected User-Agent values (first value of every spelling of the name; h1: only the canonical key)
+	cookies []string       // expected cookie pairs
+	order   []string
+	porder  []string
+}
+
+// the preset installs its table with SetCommonHeaders before the scenario's own client-level calls
+func presetOps(name string) []hdrOp {
+	hs, _, _ := req.VerifImpersonateTables(name)
+	var ops []hdrOp
+	for k, v := range hs {
+		ops = append(ops, hdrOp{Kind: "set", K: k, V: v})
+	}
+	sort.Slice(ops, func(i, j int) bool { return ops[i].K < ops[j].K })
+	return ops
+}
+
+func expected(sc scenario) expectation {
+	rh, ch := http.Header{}, http.Header{}
+	applyOps(rh, sc.Req)
+	applyOps(ch, presetOps(sc.Preset))
+	applyOps(ch, sc.Cli)
+	merged := http.Header{}
+	for k, v := range rh {
+		merged[k] = v
+	}
+	for k, v := range ch { // client-level values are defaults: used when the request has no such key
+		if len(merged[k]) == 0 {
+			merged[k] = v
+		}
+	}
+	var e expectation
+	uaSet := false
+	for k, vs := range merged {
+		lk := strings.ToLower(k)
+		if lk == "user-agent" && (sc.Proto != 1 || k == "User-Agent") {
+			uaSet = true
+			if len(vs) > 0 && vs[0] != "" {
+				e.ua = append(e.ua, vs[0]) // per key at most one User-Agent, its first value
+			}
+			continue
+		}
+		if lk == "cookie" {
+			for _, v := range vs {
+				e.cookies = append(e.cookies, strings.Split(v, "; ")...)
+			}
+			continue
+		}
+		if sc.Proto != 1 {
+			switch lk {
+			case "connection", "keep-alive", "proxy-connection", "transfer-encoding", "upgrade":
+				continue // connection-specific: omitted on HTTP/2 and HTTP/3
+			}
+		}
+		for _, v := range vs {
+			e.fields = append(e.fields, origin.Field{Name: k, Value: strings.Trim(v, " \t")})
+		}
+	}
+	if !uaSet {
+		e.ua = []string{"req/v3 (https://github.com/imroc/req)"}
+	}
+	for _, c := range sc.ReqCookies {
+		e.cookies = append(e.cookies, c.N+"="+c.V)
+	}
+	for _, c := range sc.CliCookies {
+		e.cookies = append(e.cookies, c.N+"="+c.V)
+	}
+	e.order, e.porder = sc.ReqOrder, sc.ReqPOrder
+	if len(sc.CliOrder) > 0 {
+		e.order = sc.CliOrder // the client-level list replaces the request-level one
+	}
+	if len(sc.CliPOrder) > 0 {
+		e.porder = sc.CliPOrder
+	}
+	return e
+}
+
+// ---------- running one scenario ----------
+
+type captured struct {
+	hdr    http.Header
+	method string
+	host   string
+	path   string
+	scheme string
+	clen   int64
+}
+
+func newClient(sc scenario, o *origin.Origin, capt *captured) *req.Client {
+	c := req.C().SetTimeout(20 * time.Second)
+	// innermost transport wrapper: what the protocol writers receive
+	c.Transport.WrapRoundTripFunc(func(rt http.RoundTripper) req.HttpRoundTripFunc {
+		return func(r *http.Request) (*http.Response, error) {
+			capt.hdr = r.Header.Clone()
+			capt.method, capt.host, capt.path, capt.scheme = r.Method, r.Host, r.URL.RequestURI(), r.URL.Scheme
+			capt.clen = r.ContentLength
+			return rt.RoundTrip(r)
+		}
+	})
+	switch sc.Preset {
+	case "chrome":
+		c.ImpersonateChrome()
+	case "firefox":
+		c.ImpersonateFirefox()
+	case "safari":
+		c.ImpersonateSafari()
+	}
+	switch sc.Proto {
+	case 1:
+		c.EnableForceHTTP1()
+	case 2:
+		c.EnableH2C().EnableForceHTTP2()
+	case 3:
+		c.EnableInsecureSkipVerify().EnableForceHTTP3()
+	}
+	if sc.NoCompress {
+		c.DisableCompression()
+	}
+	for _, op := range sc.Cli {
+		if op.Kind == "set" {
+			c.SetCommonHeader(op.K, op.V)
+		} else {
+			c.SetCommonHeaderNonCanonical(op.K, op.V)
+		}
+	}
+	if len(sc.CliOrder) > 0 {
+		c.SetCommonHeaderOrder(sc.CliOrder...)
+	}
+	if len(sc.CliPOrder) > 0 {
+		c.SetCommonPseudoHeaderOder(sc.CliPOrder...)
+	}
+	for _, ck := range sc.CliCookies {
+		c.SetCommonCookies(&http.Cookie{Name: ck.N, Value: ck.V})
+	}
+	return c
+}
+
+func runScenario(sc scenario, o *origin.Origin) (origin.Obs, *captured, error) {
+	capt := &captured{}
+	c := newClient(sc, o, capt)
+	defer c.GetTransport().CloseIdleConnections()
+	r := c.R()
+	for _, op := range sc.Req {
+		if op.Kind == "set" {
+			r.SetHeader(op.K, op.V)
+		} else {
+			r.SetHeaderNonCanonical(op.K, op.V)
+		}
+	}
+	if len(sc.ReqOrder) > 0 {
+		r.SetHeaderOrder(sc.ReqOrder...)
+	}
+	if len(sc.ReqPOrder) > 0 {
+		r.SetPseudoHeaderOrder(sc.ReqPOrder...)
+	}
+	for _, ck := range sc.ReqCookies {
+		r.SetCookies(&http.Cookie{Name: ck.N, Value: ck.V})
+	}
+	if sc.BodyLen > 0 {
+		r.SetBodyBytes([]byte(strings.Repeat("b", sc.BodyLen)))
+	}
+	o.Drain()
+	_, err := r.Send(sc.Method, o.URL+"/c16?x=1")
+	if err != nil {
+		return origin.Obs{}, capt, err
+	}
+	obs, ok := o.Next(10 * time.Second)
+	if !ok {
+		return origin.Obs{}, capt, fmt.Errorf("origin saw no request")
+	}
+	return obs, capt, nil
+}
+
+// ---------- oracle ----------
+
+func msKey(fs []origin.Field, lower bool) []string {
+	var s []string
+	for _, f := range fs {
+		n := f.Name
+		if lower {
+			n = strings.ToLower(n)
+		}
+		s = append(s, fmt.Sprintf("%s: %s", n, f.Value))
+	}
+	sort.Strings(s)
+	return s
+}
+
+func diffMS(got, want []string) (missing, extra []string) {
+	cnt := map[string]int{}
+	for _, w := range want {
+		cnt[w]++
+	}
+	for _, g := range got {
+		if cnt[g] > 0 {
+			cnt[g]--
+		} else {
+			extra = append(extra, g)
+		}
+	}
+	for w, n := range cnt {
+		for i := 0; i < n; i++ {
+			missing = append(missing, w)
+		}
+	}
+	sort.Strings(missing)
+	return
+}
+
+func protoName(p int) string { return fmt.Sprintf("h%d", p) }
+
+func oracle(r *hk.Run, sc scenario, obs origin.Obs) {
+	e := expected(sc)
+	pn := protoName(sc.Proto)
+	fail := func(sig, what string, got, want interface{}) {
+		r.Fail(hk.Failure{Sig: "e2e:" + pn + ":" + sig, What: what, Input: sc, Got: got, Want: want})
+	}
+	if obs.Err != "" {
+		fail("origin-error", "origin could not parse the request: "+obs.Err, nil, nil)
+		return
+	}
+	var pseudo, regular []origin.Field
+	seenRegular := false
+	for _, f := range obs.Fields {
+		if strings.HasPrefix(f.Name, ":") {
+			if seenRegular {
+				fail("pseudo-after-regular", "pseudo-header field after a regular field", f.Name, nil)
+			}
+			pseudo = append(pseudo, f)
+		} else {
+			seenRegular = true
+			regular = append(regular, f)
+		}
+	}
+	// bookkeeping keys never on the wire
+	for _, f := range regular {
+		ln := strings.ToLower(f.Name)
+		if ln == "__header_order__" || ln == "__pseudo_header_order__" {
+			fail("bookkeeping-on-wire", "internal bookkeeping key transmitted", f, nil)
+		}
+	}
+	// automatic fields are set aside, the rest must be exactly the caller's set
+	var rest []origin.Field
+	var ua, cookies []string
+	for _, f := range regular {
+		ln := strings.ToLower(f.Name)
+		switch {
+		case ln == "user-agent" && (sc.Proto != 1 || f.Name == "User-Agent"):
+			ua = append(ua, f.Value)
+		case ln == "cookie":
+			cookies = append(cookies, strings.Split(f.Value, "; ")...)
+		case ln == "host" && sc.Proto == 1, ln == "content-length", ln == "transfer-encoding" && sc.Proto == 1:
+		case ln == "accept-encoding" && f.Value == "gzip" && !sc.NoCompress && !callerSet(sc, "Accept-Encoding"):
+		case ln == "content-type" && sc.BodyLen > 0 && !callerSet(sc, "Content-Type"):
+		default:
+			rest = append(rest, origin.Field{Name: f.Name, Value: strings.Trim(f.Value, " \t")})
+		}
+	}
+	want := e.fields
+	lower := sc.Proto != 1
+	if missing, extra := diffMS(msKey(rest, lower), msKey(want, lower)); len(missing)+len(extra) > 0 {
+		sig := "header-set-changed"
+		if len(missing) > 0 && len(extra) == 0 {
+			sig = "header-dropped"
+		} else if len(extra) > 0 && len(missing) == 0 {
+			sig = "header-added"
+		}
+		fail(sig, "the transmitted header set differs from what the caller set", map[string]interface{}{"missing": missing, "extra": extra}, nil)
+	}
+	sort.Strings(ua)
+	sort.Strings(e.ua)
+	if fmt.Sprint(ua) != fmt.Sprint(e.ua) {
+		fail("user-agent", "User-Agent lines differ from the caller's choice", ua, e.ua)
+	}
+	sort.Strings(cookies)
+	wc := append([]string(nil), e.cookies...)
+	sort.Strings(wc)
+	if fmt.Sprint(cookies) != fmt.Sprint(wc) {
+		fail("cookies", "cookie pairs differ", cookies, wc)
+	}
+	// order
+	order, porder := e.order, e.porder
+	if sc.Preset != "" { // registered first = innermost = applied last
+		_, order, porder = req.VerifImpersonateTables(sc.Preset)
+	}
+	if len(order) > 0 {
+		var names []string
+		for _, f := range regular {
+			names = append(names, f.Name)
+		}
+		if bad := checkListedOrder(names, order); bad != "" {
+			bucket := "n<=12"
+			if len(names) > 12 {
+				bucket = "n>12"
+			}
+			fail("listed-order-broken:"+bucket, "listed fields are on the wire against the order list: "+bad, names, order)
+		}
+	}
+	if sc.Proto != 1 {
+		var pn []string
+		for _, f := range pseudo {
+			pn = append(pn, f.Name)
+		}
+		sorted := append([]string(nil), pn...)
+		sort.Strings(sorted)
+		if strings.Join(sorted, " ") != ":authority :method :path :scheme" {
+			fail("pseudo-set", "pseudo-header fields are not exactly the four request pseudo-headers", pn, nil)
+		}
+		if len(porder) > 0 {
+			if bad := checkListedOrder(pn, porder); bad != "" {
+				fail("pseudo-order-broken", "pseudo-header fields against the requested order: "+bad, pn, porder)
+			}
+		}
+	}
+}
+
+func callerSet(sc scenario, canonical string) bool {
+	for _, l := range [][]hdrOp{sc.Req, sc.Cli, presetOps(sc.Preset)} {
+		for _, op := range l {
+			k := op.K
+			if op.Kind == "set" {
+				k = http.CanonicalHeaderKey(k)
+			}
+			if k == canonical {
+				return true
+			}
+		}
+	}
+	return false
+}
+
+// ---------- Coq emission ----------
+
+func coqCreq(capt *captured, sc scenario) string {
+	keys := make([]string, 0, len(capt.hdr))
+	for k := range capt.hdr {
+		keys = append(keys, k)
+	}
+	sort.Strings(keys)
+	kvs := make([]string, len(keys))
+	for i, k := range keys {
+		kvs[i] = coqKV(k, capt.hdr[k])
+	}
+	return fmt.Sprintf("(mk_creq %s %s %s %s %s %s %s)", cs(capt.method), cs(capt.host), cs(capt.path), cs(capt.scheme),
+		hk.CoqList(kvs), hk.CoqZ(capt.clen), hk.CoqBool(!sc.NoCompress))
+}
+
+func coqLines(fs []origin.Field) string {
+	o := make([]string, len(fs))
+	for i, f := range fs {
+		o[i] = hk.CoqPair(cs(f.Name), cs(f.Value))
+	}
+	return hk.CoqList(o)
+}
+
+func runE2E(r *hk.Run, rng *hk.Rand) {
+	type startFn func() (*origin.Origin, error)
+	protos := []struct {
+		p     int
+		start startFn
+		n     int
+	}{
+		{1, origin.StartH1, r.Scale(260, 4000)},
+		{2, origin.StartH2C, r.Scale(200, 3000)},
+		{3, origin.StartH3, r.Scale(140, 2000)},
+	}
+	for _, pr := range protos {
+		o, err := pr.start()
+		if err != nil {
+			r.Fail(hk.Failure{Sig: "e2e:origin-start", What: err.Error(), Input: pr.p})
+			continue
+		}
+		prng := rng.Fork()
+		for i := 0; i < pr.n; i++ {
+			sc := genScenario(prng, pr.p, i)
+			pn := protoName(pr.p)
+			r.Count("e2e." + pn)
+			var obs origin.Obs
+			var capt *captured
+			var err error
+			func() {
+				defer func() {
+					if e := recover(); e != nil {
+						err = fmt.Errorf("panic: %v", e)
+					}
+				}()
+				obs, capt, err = runScenario(sc, o)
+			}()
+			if err != nil {
+				r.Fail(hk.Failure{Sig: "e2e:" + pn + ":request-failed", What: "a request with valid headers failed: " + err.Error(), Input: sc})
+				continue
+			}
+			oracle(r, sc, obs)
+			nUser := len(sc.Req) + len(sc.Cli)
+			if len(sc.ReqOrder)+len(sc.CliOrder) > 0 || sc.Preset != "" {
+				r.Count("e2e." + pn + ".ordered")
+				if len(obs.Fields) > 12 {
+					r.Count("e2e." + pn + ".ordered.n>12")
+				}
+			}
+			if sc.Preset != "" {
+				r.Count("e2e.preset=" + sc.Preset)
+			}
+			if len(sc.ReqPOrder)+len(sc.CliPOrder) > 0 {
+				r.Count("e2e." + pn + ".pseudo-order")
+			}
+			if sc.BodyLen > 0 {
+				r.Count("e2e.body")
+			}
+			if len(sc.ReqCookies) > 0 {
+				r.Count("e2e.cookies")
+			}
+			desc := map[string]interface{}{"kind": "wire-" + pn, "scenario": sc, "wire": obs.Fields}
+			coq := fmt.Sprintf("WireCase %d %s %s", pr.p, coqCreq(capt, sc), coqLines(obs.Fields))
+			r.Add(hk.Case{Coq: coq, Desc: desc}, fmt.Sprintf("e2e|%+v", sc), nUser >= 2)
+		}
+		o.Close()
+	}
+}
